@@ -73,5 +73,22 @@ CLAIMED['C01'] = {
     'note': 'Bounded list/name lengths (props/c01.py META); client-to-server lists are not reported by the tool (documented source is server-to-client); json.dumps captured.',
 }
 
+CLAIMED['C02'] = {
+    'engines': 'ZX',
+    'technique': 'symbolic execution of the real output()/audit()/evaluate_policy on severity mixes with symbolic unknown names, symbolic output options, scripted broken handshakes and a symbolic policy',
+    'text': 'For every ordering of failure/warning/clean/unknown algorithms within the bounds and all output options z3 shows status == fold of the rendered severities and '
+            'independence from batch/verbose/JSON/level; ten broken-handshake stages give status 1 and no report in single and target-list mode; policy mode maps verdict to 0/3.',
+    'note': 'Severity classes are recomputed from the current table; unknown names are 2 symbolic chars; socket and json.dumps stubbed; C09 covers further malformed input.',
+}
+CLAIMED['C15'] = {
+    'engines': 'ZX',
+    'technique': 'symbolic execution of two/three renderings of the same peer under symbolic option vectors and of OutputBuffer call sequences; equality of status/findings and the subsequence property decided per path',
+    'text': 'For an arbitrary row with symbolic notes and a symbolic neighbour, all batch/verbose pairs and minimum levels: status identical, findings identical at level info, '
+            'a higher level yields a subsequence that keeps every line at or above it; JSON notes == text findings for table-known names, one JSON document; OutputBuffer keeps '
+            'exactly the calls at or above the level.',
+    'note': 'Sub-clauses NOT addressable by this technique and excluded from the claim: byte-identity under different PYTHONHASHSEED values (no symbolic model of CPython hashing) and '
+            'compact-vs-indented JSON equality (json library, C code). Colours disabled in harnesses.',
+}
+
 NOT_APPLICABLE = {
 }
